@@ -232,6 +232,56 @@ example : intRes " 1_000 " = .int 1000 := by decide
 example : intRes "0x10" = .err .foreign := by decide
 example : microRes "2.5e6" = .micro (.fin false 25 5) := by decide
 
+/-! ## edit histories -/
+
+/-- after any history of edits, `refresh()` calls and lookups that ends with a `refresh()` followed by
+    lookups only, the layer object is in exactly the state of an object freshly loaded from the hierarchy
+    as it is now — whatever was looked up, edited or refreshed before -/
+theorem C15_history_independent (o : LayerObj) (before after : List HistOp)
+    (h : ∀ op ∈ after, op.isQuery = true) :
+    o.run (before ++ .refresh :: after) = LayerObj.load (o.run before).hier := by
+  have hq : ∀ (ops : List HistOp) (x : LayerObj), (∀ op ∈ ops, op.isQuery = true) → x.run ops = x := by
+    intro ops
+    induction ops with
+    | nil => intro x _; rfl
+    | cons op ops ih =>
+      intro x hx
+      have h1 : op.isQuery = true := hx op (List.mem_cons_self ..)
+      have h2 : x.step op = x := by
+        cases op with
+        | query n p => rfl
+        | edit L' => cases h1
+        | refresh => cases h1
+      show (x.step op).run ops = x
+      rw [h2]
+      exact ih x fun op' hm => hx op' (List.mem_cons_of_mem _ hm)
+  unfold LayerObj.run
+  rw [List.foldl_append, List.foldl_cons]
+  exact hq after _ h
+
+/-- … hence every lookup and every typed accessor answers from the hierarchy as it is now: all the
+    theorems above (`C15_most_specific`, `C15_protocol_first`, `C15_accessors_layer`, …) apply to the
+    edited hierarchy -/
+theorem C15_history_lookup (o : LayerObj) (before after : List HistOp)
+    (h : ∀ op ∈ after, op.isQuery = true) (n : String) (p : Option String) (a : Acc) :
+    let o' := o.run (before ++ .refresh :: after)
+    o'.getComparam n p = getComparam o'.hier n p ∧ LayerObj.accessor a o' p = layerAccessor a o'.hier p := by
+  intro o'
+  have e : o' = LayerObj.load (o.run before).hier := C15_history_independent o before after h
+  rw [e]
+  exact ⟨rfl, rfl⟩
+
+/-- lookup, edit (the base variant loses its own definition and the functional-group parent), refresh,
+    lookup: the answers are those of the edited hierarchy (the protocol's generic `CP_Baudrate = 99`) -/
+example :
+    let o := (LayerObj.load exBv).run [.query "CP_Baudrate" (some "Q"), .edit (.mk .baseVariant [] [exProt]), .refresh,
+                                       .query "CP_Baudrate" none]
+    (o.getComparam "CP_Baudrate" none).map (·.tag) = some 3 ∧ LayerObj.accessor .canBaudrate o none = .int 99 := by decide
+/-- without the `refresh()` nothing is promised: the object still answers from the old hierarchy -/
+example :
+    let o := (LayerObj.load exBv).run [.edit (.mk .baseVariant [] [exProt])]
+    (o.getComparam "CP_Baudrate" none).map (·.tag) = some 0 := by decide
+
 /-! ## the pinned commit -/
 
 /-- `get_comparam` as it was at the pinned commit (`cps[0]` of generic-or-specific in dictionary order)
